@@ -238,11 +238,16 @@ def run(ctx):
     if len(it) == 1:
         lfc = it[0].args[1].strip(casts=True)
         off = lfc.children[1] if lfc.k == 'BinaryOperator' and lfc.op == '+' else None
-        lad2 = ladder(off, lambda x: q.refers_to_decl(x, fc.param_ids[0])) if off is not None else None
-        buf = [n for n in fc.all_nodes() if n.k == 'DeclStmt']
-        cap = fc.tu.types[fc.tu.decls[buf[0].r['decls'][0][0]]['t']].get('n') if buf else None
-        okc = lad2 == [('>', 99, 0), ('>', 9, 1), (None, None, 2)] and cap == 4 and it[0].args[2].strip(casts=True).value == 10
-    ctx.check(okc, 'R02.3', M + 'fmt_chksum#pad', fc.loc, 'CheckSum is right-aligned in a "000" buffer: offset 0 for > 99, 1 for > 9, else 2; base 10')
+        # the offset as a function of the value, evaluated from the expression tree for every CheckSum value 0..255 (named locals stand for their initialiser)
+        from ..memo import _expand
+        offs = None
+        if off is not None:
+            oe = _expand(fc, off)
+            offs = [q.eval_int(oe, {fc.param_ids[0]: v}) for v in range(256)]
+        caps = [fc.tu.types[fc.tu.decls[dd]['t']].get('n') for n in fc.all_nodes() if n.k == 'DeclStmt' for dd, _i in n.r['decls']
+                if fc.tu.types[fc.tu.decls[dd]['t']]['k'] == 'array']
+        okc = offs == [3 - len(str(v)) for v in range(256)] and caps == [4] and it[0].args[2].strip(casts=True).value == 10
+    ctx.check(okc, 'R02.3', M + 'fmt_chksum#pad', fc.loc, 'CheckSum is right-aligned in a "000" buffer: offset 3 - (number of digits) for every value 0..255; base 10')
     # ---------------- R02.4 field rendering
     be = prog.fn1('FIX8::BaseField::encode', sig='(char *)')
     ctx.saw(be)
